@@ -986,3 +986,8 @@ def run(rep, program: Program, tier: str) -> None:
     from . import transim
 
     rep.isolate(transim.rule, rep, program, PROP, "R14")
+    # energies and gradients used by a transition are read from the state cache: they must belong to the transition's own
+    # system object, not to another system of the same class that touched the state before (shared with C09-R6)
+    from . import c09
+
+    rep.isolate(c09.rule_r6, rep, program, prop=PROP, rule="R15")
